@@ -17,9 +17,9 @@ use std::ops::{Add, Div, Mul, Neg, Sub};
 pub fn gen(g: &mut Gen) {
     let (n_fp, n_rat) = if g.thorough { (20000, 4000) } else { (1000, 300) };
     for line in [
-        "@ trace fp", "var x0 5 via=record", "const c1 7 via=constant", "cos r2 x0 via=ref",
-        "divn r3 x0 7 via=ref_ref", "npow r4 7 x0 via=ref_ref", "pow r5 x0 x0 via=ref_ref",
-        "neg r6 x0 via=val", "subsw r7 x0 9 via=ref_ref", "divsw r8 x0 9 via=val_val", "derivs r8",
+        "@ trace fp", "var r0 5 via=record", "const r1 7 via=constant", "cos r2 r0 via=ref",
+        "divn r3 r0 7 via=ref_ref", "npow r4 7 r0 via=ref_ref", "pow r5 r0 r0 via=ref_ref",
+        "neg r6 r0 via=val", "subsw r7 r0 9 via=ref_ref", "divsw r8 r0 9 via=val_val", "derivs r8",
     ] {
         g.op(line.to_string());
     }
